@@ -10,6 +10,21 @@ NOTE = ("Trusted: Coq 8.16.1 kernel + vm_compute; no axioms (Print Assumptions c
         "its ExtrOcamlBasic extraction vs the implementation built from the working tree); Rust harness, python generators.")
 
 CHECKS = {
+    "C02": dict(
+        category="other",
+        text="Machine-checked for ALL Unicode texts (Props/C02.v): every panic site of lexer::lex and parser::parse is "
+             "unreachable and the recursion is bounded (C02_lex_total, C02_parse_total, C02_parse_fuel, C02_new_tree_total: "
+             "AnalyzedSource::new always produces tokens and a tree), table construction never reaches `'main' must be a "
+             "procedure`, semantic analysis never reaches `Named declaration without entry`. The models make every "
+             "expect/unwrap/index/slice site an explicit outcome, and the check requires the model to predict Done/Panic exactly "
+             "as the implementation does on the malformed stream (new + errors()) and on edit histories (update). Not proved, "
+             "only fuzzed against the library and the built binary: the Identifier::to_error assert and the index sites of "
+             "errors() (pending Proofs/RangeProofs), the 13 request handlers on arbitrary documents and positions (one "
+             "well-formed response per request, process alive; documents nested up to depth 400), the runtime. "
+             "AnalyzedSource::update can panic after edits (known finding C02-incparse-panic, class: predicted by the model of the "
+             "pinned incremental parser).",
+        design_ref="DESIGN.md section 5, C02",
+        technique="Coq proof of totality/panic-freedom of the lexer and parser models + model/implementation correspondence on outcomes + request fuzzing of the binary"),
     "C04": dict(
         category="proof",
         text="Theorem C04_roundtrip (Props/C04.v), for ALL abstract programs of the SPL grammar (precedence levels, left "
